@@ -41,8 +41,11 @@ class ZU(ASTNode):  # required single child
 
 
 @dataclass(frozen=True)
-class ZO(ASTNode):  # optional single child
+class ZO(ASTNode):  # optional single child; falsy in a boolean context although it may hold a child (ZD inherits this)
     c: ASTNode | None = None
+
+    def __bool__(self) -> bool:
+        return False
 
 
 @dataclass(frozen=True, slots=True)
